@@ -5,19 +5,21 @@
    of VDictOps - the dictionary is logged once, at `session`, never again. *)
 EXTENDS Trace_Worker
 
-VARIABLE lastop          \* which operation the next projection belongs to (attribution)
-dvars == <<vars, lastop>>
+VARIABLES lastop,        \* which operation the next projection belongs to (attribution)
+          lastp          \* the two id orders most recently reported by compute_connid_probs (reorder -> map pipeline)
+dvars == <<vars, lastop, lastp>>
 
-DInit == Init /\ lastop = "build"
+DInit == Init /\ lastop = "build" /\ lastp = <<>>
 
 OwnerOf(op) == IF op = "user" THEN "C08" ELSE IF op = "map" THEN "C06" ELSE IF op = "wr" THEN "C05" ELSE "C11"
 
-DSession == Session /\ lastop' = "build"
+DSession == Session /\ lastop' = "build" /\ lastp' = <<>>
+DProbs == Probs /\ lastp' = <<E.lo, E.ro>> /\ UNCHANGED lastop
 
 (* the dictionary shows exactly the abstract value *)
 Proj == /\ Is("proj")
         /\ A(OwnerOf(lastop), "projection-after-" \o lastop, E.p = Project(dict))
-        /\ UNCHANGED <<dict, opts, ws, cnt, memo, lastop>>
+        /\ UNCHANGED <<dict, opts, ws, cnt, memo, lastop, lastp>>
 
 User == /\ Is("user")
         /\ IF E.clear
@@ -28,15 +30,17 @@ User == /\ Is("user")
                 /\ A("C10", "invalid-user-lexicon-rejected", ~valid => ~E.ok)
                 /\ dict' = IF E.ok THEN SetUser(dict, E.rows) ELSE dict
         /\ lastop' = "user" /\ memo' = {}
-        /\ UNCHANGED <<opts, ws, cnt>>
+        /\ UNCHANGED <<opts, ws, cnt, lastp>>
 
 Map == /\ Is("map")
        /\ LET valid == MapValid(dict, E.ll, E.rl) IN
           /\ A("C06", "mapping-accepted-iff-valid", E.ok = valid)
           /\ A("C10", "malformed-mapping-rejected", ~valid => ~E.ok)
+          (* C13: what the reorder tool writes is always accepted by the map tool *)
+          /\ A("C13", "reorder-output-accepted-by-map", (lastp = <<E.ll, E.rl>>) => E.ok)
           /\ dict' = IF E.ok /\ valid THEN TLCEval(MapDict(dict, E.ll, E.rl)) ELSE dict
        /\ lastop' = "map" /\ memo' = {}
-       /\ UNCHANGED <<opts, ws, cnt>>
+       /\ UNCHANGED <<opts, ws, cnt, lastp>>
 
 (* write; read; write again: the abstract value is unchanged (checked by the projection that
    follows), write reports what it emitted, and the bytes are reproduced *)
@@ -45,7 +49,7 @@ WR == /\ Is("wr")
       /\ A("C05", "write-reports-emitted-length", E.ret = E.emitted)
       /\ A("C05", "rewrite-reproduces-bytes", E.h1 = E.h2 /\ E.len2 = E.emitted)
       /\ lastop' = "wr"
-      /\ UNCHANGED <<dict, opts, ws, cnt, memo>>
+      /\ UNCHANGED <<dict, opts, ws, cnt, memo, lastp>>
 
 (* relational clause of C06: same tokens, ids renamed by the permutation *)
 MapRel == /\ Is("maprel")
@@ -54,10 +58,10 @@ MapRel == /\ Is("maprel")
           /\ A("C06", "surfaces-and-features-equal",
                /\ Len(E.after) = Len(E.before)
                /\ \A i \in 1..Len(E.after) : E.after[i].surf = E.before[i].surf /\ E.after[i].f = E.before[i].f)
-          /\ UNCHANGED <<dict, opts, ws, cnt, memo, lastop>>
+          /\ UNCHANGED <<dict, opts, ws, cnt, memo, lastop, lastp>>
 
-Lift(a) == a /\ UNCHANGED lastop
-DNext == \/ DSession \/ Proj \/ User \/ Map \/ WR \/ MapRel
+Lift(a) == a /\ UNCHANGED <<lastop, lastp>>
+DNext == \/ DSession \/ Proj \/ User \/ Map \/ WR \/ MapRel \/ DProbs \/ Lift(CInit) \/ Lift(CUpd)
          \/ Lift(Reset) \/ Lift(Tok) \/ Lift(Read) \/ Lift(PanicStuck) \/ Lift(PanicElsewhere)
 DSpec == DInit /\ [][DNext]_dvars
 ===========================================================================
